@@ -28,7 +28,12 @@ structure World where
   /-- C01: entry set (sorted hashes) ↦ canonical state first seen with it -/
   states   : List (List Nat × String) := []
   syncSrc  : Option (Nat × List Nat) := none
-  msgHeads : Option (List Nat) := none     -- source peer's entry hashes at sync time
+  msgHeads : Option (List Nat) := none
+  /-- peers whose status depends on a scheduler choice the trace does not record (the order in
+  which `Load` handled the cached heads): the model adopts the next observed status -/
+  resync   : List Nat := []
+  acked    : List Nat := []               -- entries whose write call returned success
+  inflight : List Nat := []               -- peers with replication requests that have not settled     -- source peer's entry hashes at sync time
   lineNo   : Nat := 0
   nFail    : Nat := 0
   nObs     : Nat := 0
@@ -112,6 +117,7 @@ def World.onAck (w : World) (toks : List String) : World :=
       w.setStore p s'
   else
     let n := entryNum r
+    let w := { w with acked := n :: w.acked }
     let w := w.modelAdd p n
     -- C03 (local): a non-writer's local write must fail
     match w.entry n with
@@ -120,7 +126,7 @@ def World.onAck (w : World) (toks : List String) : World :=
 
 def World.onAckBatch (w : World) (toks : List String) : World :=
   let p := peerNum (toks.getD 1 "")
-  (namesToNums (arg toks "created")).foldl (fun w n => w.modelAdd p n) w
+  (namesToNums (arg toks "created")).foldl (fun w n => { w with acked := n :: w.acked }.modelAdd p n) w
 
 def parseLogs (w : World) (s : String) : List (OMap × OMap) :=
   (s.splitOn ";").map (fun part => match part.splitOn "/" with
@@ -177,6 +183,11 @@ def World.onObs (w : World) (toks : List String) : World :=
   let ilocal := cacheField (arg toks "local")
   let iremote := cacheField (arg toks "remote")
   let prev := w.obsOf p
+  let busy := w.inflight.contains p
+  let (w, s) := if w.resync.contains p || busy then
+      let s' := { s with status := { progress := ist.1, max := ist.2 } }
+      ({ w.setStore p s' with resync := w.resync.filter (· != p) }, s')
+    else (w, s)
   -- correspondence
   let mv := (values s.log).map (·.hash)
   let w := if mv != iv then w.fail "corr" "values" s!"peer {p}: model {showNums mv}, implementation {showNums iv}" else w
@@ -227,7 +238,7 @@ def World.onObs (w : World) (toks : List String) : World :=
       w.fail "C19" "mono" s!"peer {p}: status went from {prev.status.1}/{prev.status.2} to {ist.1}/{ist.2}" else w
   let complete := ients.all (fun e => e.next.all (fun h => iv.contains h))
   let maxT : Int := ients.foldl (fun m e => max m (e.time : Int)) 0
-  let w := if complete && !(ist.1 == ist.2 && maxT ≤ ist.2 && ist.2 ≤ (ilen : Int)) then
+  let w := if complete && !busy && !(ist.1 == ist.2 && maxT ≤ ist.2 && ist.2 ≤ (ilen : Int)) then
       w.fail "C19" "rest" s!"peer {p}: at rest with a complete log of {ilen} entries (max time {maxT}) status is {ist.1}/{ist.2}" else w
   -- C05 (covers): the cached heads' ancestry covers the whole log
   let roots := (ilocal.getD []) ++ (iremote.getD [])
@@ -334,7 +345,7 @@ def World.onRestarted (w : World) (toks : List String) : World :=
   let w := { w with lastObs := w.lastObs.filter (·.1 != p) }
   match s.load w.acl w.fetchAll amount with
   | .ok s' =>
-    let w := w.setStore p s'
+    let w := { w.setStore p s' with resync := p :: w.resync }
     if r != "ok" then w.fail (if amount == -1 then "C05" else "C15") "load" s!"peer {p}: reopening and Load({amount}) failed ({r})" else w
   | .error e =>
     let w := w.setStore p s
@@ -363,6 +374,21 @@ def World.step (w : World) (line : String) : World :=
   | "result" => w.onResult toks
   | "got" => w.onGot toks
   | "docgot" => w.onDocGot toks
+  | "final" =>
+    -- C02: writes stopped, every link healed, every ordered pair exchanged heads: every replica holds
+    -- every acknowledged write (and so, by C01, shows the same state)
+    w.stores.foldl (fun w (p, _) =>
+      let o := w.obsOf p
+      if !o.seen then w else
+      let missing := w.acked.filter (fun n => !o.values.contains n)
+      if missing.isEmpty then w else
+        w.fail "C02" "converge" s!"peer {p} lacks acknowledged writes {showNums (sortNums missing)} after the final exchange round") w
+  | "syncing" =>
+    let p := peerNum (toks.getD 1 "")
+    { w with inflight := p :: w.inflight.filter (· != p), resync := p :: w.resync.filter (· != p) }
+  | "settled" =>
+    let p := peerNum (toks.getD 1 "")
+    if arg toks "quiesce" == "true" then { w with inflight := w.inflight.filter (· != p), resync := p :: w.resync.filter (· != p) } else w
   | "msg" => w.onMsg toks
   | "delivered" => w.onDelivered toks
   | "restarted" => w.onRestarted toks
